@@ -507,18 +507,27 @@ def tasks(tier):
         out.append(Task("permutation/x+c/2rxn/nctrl1", h_permutation, dict(kernels_spec=("x", "c"), names=("x_plain", "xc_plain"), nctrl=1), mods="train", timeout_ms=120000))
         out.append(Task("permutation/x/3rxn", h_permutation, dict(kernels_spec=("x",), names=("x_plain", "x_orb", "x_weight"), nctrl=1), mods="train", timeout_ms=120000))
         out.append(Task("likelihood/x/2rxn", h_likelihood, dict(kernels_spec=("x",), names=("x_plain", "x_weight")), mods="train", timeout_ms=120000))
+    # the matrix of the linear system: (K_mm)_ab = k(x_a, x_b) as DFTKernel.get_kctrl builds it (symmetric, the documented spin
+    # combination per mode) - the fit/* tasks above take K_mm as a symbolic SPD matrix, so its construction is decided here
+    from . import c15
+    for mode in ("POL", "NPOL", "SEP"):
+        out.append(Task("kmm/DFTKernel.get_kctrl/%s" % mode, c15.h_dft_kernel_cov, dict(mode=mode), mods="kernels"))
+    out.append(Task("kmm/DFTKernel.get_kctrl/POL/const*RBF", c15.h_dft_kernel_cov, dict(mode="POL", kname="Const*RBF"), mods="kernels"))
     return out
 
 
 def prepare(tier):
     m = sym_mods("train")
     m.train, m.settings
+    mk = sym_mods("kernels")
+    mk.kernels, mk.dft_kernel, mk.td
 
 
 META = dict(
     explanation="MOLGP.add_reactions/reset_reactions/fit/compute_likelihood executed symbolically on duck-typed kernels with symbolic state; the oracle never inverts: "
                 "the solved weights are substituted into the documented linear equations and the polynomial normal form / z3 decide the identities",
-    functions=["ciderpress/models/train.py: MOLGP.__init__, reset_reactions, add_reactions, fit, compute_likelihood, _compute_mol_covs (load_data stubbed with symbolic arrays), strk_to_tuplek"],
+    functions=["ciderpress/models/dft_kernel.py: DFTKernel.set_control_points / get_kctrl (kmm/*: symmetry, documented spin combination, spin-exchange invariance)",
+               "ciderpress/models/train.py: MOLGP.__init__, reset_reactions, add_reactions, fit, compute_likelihood, _compute_mol_covs (load_data stubbed with symbolic arrays), strk_to_tuplek"],
     bounds=dict(control_points="1-2 per kernel", kernels="1-2 (x, c, xc components)", reactions="1-3 with 1-2 systems each, plain and orbital-derivative entries, modes 0 and 2",
                 options="noise / noise_factor / noise_rel_factor / weight / default unit", epsilon="numerical_epsilon symbolic >= 0 (the documented formula is the eps = 0 instance)"),
     stubs=["DFTKernel: duck-typed stand-in with exactly the attributes MOLGP reads/writes; Kmm symbolic with positive leading minors (assumed)", "scipy.linalg.cholesky / cho_solve, numpy.linalg.slogdet: their definitions over exact reals (n <= 2)"],
